@@ -378,6 +378,7 @@ def solver_cases(rep, rng, n):
     import pysmt.typing as T
     BruteSolver, _ = classes()
     fails = ['assert_non_boolean', 'get_value_function', 'assert_foreign',
+             'is_sat_non_boolean', 'is_valid_non_boolean',
              'opt_min_bool_term', 'opt_lexi_with_bool', 'opt_bad_strategy',
              'opt_boxed_with_bool', 'opt_pareto_with_bool',
              'opt_lexi_maxsmt', 'opt_min_string_term']
@@ -444,9 +445,10 @@ def solver_cases(rep, rng, n):
                         return str(solver.get_value(a))
                     return None
                 elif op == 'last':
-                    if kind.startswith('opt_'):
-                        # a failing optimisation has made solver calls of
-                        # its own: these attributes legitimately differ
+                    if kind.startswith('opt_') or kind.startswith('is_'):
+                        # a failing optimisation / one-shot query has made
+                        # stack or solver calls of its own: these
+                        # attributes legitimately differ
                         return None
                     return (solver.last_command, solver.last_result)
                 elif op == 'assertions':
@@ -498,6 +500,12 @@ def _solver_fail(kind, solver, env, mgr):
     if kind == 'assert_non_boolean':
         return outcome(lambda: solver.add_assertion(
             mgr.Plus(mgr.Symbol('c15_n', T.INT), mgr.Int(1))))
+    if kind == 'is_sat_non_boolean':
+        return outcome(lambda: solver.is_sat(
+            mgr.Plus(mgr.Symbol('c15_n', T.INT), mgr.Int(1))))
+    if kind == 'is_valid_non_boolean':
+        return outcome(lambda: solver.is_valid(
+            mgr.Symbol('c15_n', T.INT)))
     if kind == 'pop_beyond':
         # more pops than pushes: illegal, must fail and leave no trace
         n = len(solver.frames)
